@@ -31,6 +31,9 @@ type libCase struct {
 	Witness   []string `json:"witness,omitempty"`
 	Amount    uint64   `json:"amount,omitempty"`
 	Flags     uint32   `json:"flags,omitempty"`
+	NIn       int      `json:"n_in,omitempty"`  // inputs of the spending transaction (0 = 1)
+	NOut      int      `json:"n_out,omitempty"` // its outputs: n_out-1 (0 = 1 output, 1 = none, 2 = one ...)
+	Idx       int      `json:"idx,omitempty"`   // position of the verified input
 }
 
 var consensusFlags = uint32(script.VER_P2SH | script.VER_DERSIG | script.VER_CLTV | script.VER_CSV | script.VER_WITNESS | script.VER_NULLDUMMY | script.VER_TAPROOT)
@@ -134,7 +137,26 @@ func checkLib(c libCase) error {
 				b, _ := hex.DecodeString(w)
 				in.Witness = append(in.Witness, b)
 			}
-			wt := &wire.Tx{Version: 2, In: []wire.TxIn{in}, Out: []wire.TxOut{{Value: 1, PkScript: []byte{0x51}}}, LockTime: 0}
+			nin, nout, idx := max(c.NIn, 1), 1, c.Idx
+			if c.NOut > 0 {
+				nout = c.NOut - 1
+			}
+			if idx < 0 || idx >= nin {
+				idx = 0
+			}
+			wt := &wire.Tx{Version: 2}
+			for i := 0; i < nin; i++ {
+				if i == idx {
+					wt.In = append(wt.In, in)
+				} else {
+					o := wire.TxIn{PrevIndex: uint32(i), Sequence: 0xffffffff}
+					o.PrevHash[0] = 2
+					wt.In = append(wt.In, o)
+				}
+			}
+			for i := 0; i < nout; i++ {
+				wt.Out = append(wt.Out, wire.TxOut{Value: 1 + uint64(i), PkScript: []byte{0x51}})
+			}
 			raw := wt.Serialize(true)
 			tx, used := btc.NewTx(raw)
 			if tx == nil || used != len(raw) {
@@ -142,12 +164,14 @@ func checkLib(c libCase) error {
 			}
 			tx.SetHash(raw)
 			tx.AllocVerVars()
-			tx.Spent_outputs = []*btc.TxOut{{Value: c.Amount, Pk_script: data}}
-			script.VerifyTxScript(data, &script.SigChecker{Amount: c.Amount, Idx: 0, Tx: tx}, c.Flags)
+			for range tx.TxIn {
+				tx.Spent_outputs = append(tx.Spent_outputs, &btc.TxOut{Value: c.Amount, Pk_script: data})
+			}
+			script.VerifyTxScript(data, &script.SigChecker{Amount: c.Amount, Idx: idx, Tx: tx}, c.Flags)
 			btc.GetSigOpCount(data, true)
 			btc.GetSigOpCount(data, false)
 			btc.GetP2SHSigOpCount(ss)
-			tx.CountWitnessSigOps(0, data)
+			tx.CountWitnessSigOps(idx, data)
 		})
 	case "sig":
 		err = guarded("btc.NewSignature / secp256k1.Signature.ParseBytes", func() {
@@ -367,7 +391,31 @@ func genLibCase(t *rapid.T) libCase {
 		c.Amount = uint64(g.n(0, 1000000, "amount"))
 		var pk, ss []byte
 		var wit [][]byte
-		switch g.k(7) {
+		shape := g.k(9)
+		if shape >= 7 {
+			// taproot key-path / script-path spend of a properly tweaked output: the signature element carries
+			// every hash-type byte, the input sits before / at / behind the number of outputs, annex or not
+			pk = tapPk
+			c.NIn = g.n(1, 4, "nin")
+			c.NOut = 1 + g.n(0, 3, "nout")
+			c.Idx = g.k(c.NIn)
+			if g.chance(40) && c.NOut-1 < c.NIn {
+				c.Idx = c.NOut - 1 // input number == number of outputs
+			}
+			wit = g.tapWitness(shape == 8)
+			c.How = pick(g, []string{"taproot_keypath", "taproot_scriptpath"})
+			if shape == 7 {
+				c.How = "taproot_keypath"
+			} else {
+				c.How = "taproot_scriptpath"
+			}
+			if c.Flags&script.VER_TAPROOT == 0 && g.chance(80) {
+				c.Flags = pick(g, []uint32{consensusFlags, script.STANDARD_VERIFY_FLAGS})
+			}
+			shape = 100
+		}
+		switch shape {
+		case 100:
 		case 0: // bare random script, random scriptSig
 			pk, ss = g.randScript(), g.randScript()
 		case 1: // P2SH of a random redeem script
